@@ -64,6 +64,28 @@ theorem C24_checkpoint (cfg : Cfg) (hashFn : Bytes → α) (hcf : CollisionFree 
     ∃ n, 0 < n ∧ s.appliedS = s.sent.take n ∧ (s.appliedS.map (·.seq)).getLast? = some l :=
   checkpoint cfg hashFn hcf s s' h l hv c f m hu hstep hok
 
+/-- **C24_checkpoint_hash_scope_tied.** `C24_checkpoint` is a theorem about a running hash that
+covers EVERY payload since the handshake on both sides (`doDist`: `pre := flat sent'`, `recvCkpt`:
+compared with `flat fed`, neither ever reset inside a session). This is the regenerated fact that
+the current `sendToReader`/`emitCheckpointLocked` and `receiveLoop` do exactly that. With a
+per-window hash on both sides the gap-free clause is false: removing all frames of one checkpoint
+window (its entries and its closing checkpoint) leaves a stream whose next window verifies. -/
+theorem C24_checkpoint_hash_scope_tied :
+    Arc.Generated.C24.hashScopeSender = "session" ∧ Arc.Generated.C24.hashScopeReceiver = "session" := by
+  decide
+
+/-- **C24_checkpoint_source.** `C24_checkpoint` for the current source: its proof consumes the
+regenerated hash-scope fact, so a source edit that changes the scope breaks THIS obligation by name. -/
+theorem C24_checkpoint_source (cfg : Cfg) (hashFn : Bytes → α) (hcf : CollisionFree hashFn) (s s' : State)
+    (h : Reach cfg hashFn (fun st ev => Unforgeable hashFn st ev ∧ Carve cfg ev ∧ Clean ev) s)
+    (l : Nat) (hv : α) (c f m : Bool)
+    (hu : Unforgeable hashFn s (.deliverC l hv c f m))
+    (hstep : step cfg hashFn s (.deliverC l hv c f m) = some s') (hok : s'.conn = true) :
+    Arc.Generated.C24.hashScopeSender = "session" ∧ Arc.Generated.C24.hashScopeReceiver = "session" ∧
+    ∃ n, 0 < n ∧ s.appliedS = s.sent.take n ∧ (s.appliedS.map (·.seq)).getLast? = some l :=
+  ⟨C24_checkpoint_hash_scope_tied.1, C24_checkpoint_hash_scope_tied.2,
+    C24_checkpoint cfg hashFn hcf s s' h l hv c f m hu hstep hok⟩
+
 /-! ### non-vacuity: a concrete two-producer run with a reordering, duplicating, forging adversary -/
 
 /-- the symbolic hash used in the examples (pre-image itself: collision-free). -/
